@@ -42,7 +42,7 @@ def _stats(path):
     return ex, nt, hashes
 
 
-def campaign(pid, target, caps, seconds, seed, nworkers, max_len=1200):
+def campaign(pid, target, caps, seconds, seed, nworkers, max_len=1200, runs=None):
     corpus = os.path.join(VERIF, "corpus", pid)
     work = os.path.join(VERIF, "work", pid, "run%d" % os.getpid())
     shutil.rmtree(work, ignore_errors=True)
@@ -58,7 +58,7 @@ def campaign(pid, target, caps, seconds, seed, nworkers, max_len=1200):
         os.makedirs(adir)
         env = dict(os.environ, FUZZ_STATS=os.path.join(work, "stats%d" % w), ASAN_OPTIONS="detect_leaks=0:abort_on_error=0", UBSAN_OPTIONS="print_stacktrace=1")
         cmd = [exe, cdir] + ([corpus] if os.path.isdir(corpus) and os.listdir(corpus) else []) + [
-            "-max_total_time=%d" % seconds, "-seed=%d" % ((seed * 1000003 + w * 7919) % (2 ** 31 - 1) + 1), "-max_len=%d" % max_len, "-len_control=50",
+            "-max_total_time=%d" % seconds] + (["-runs=%d" % runs] if runs else []) + ["-seed=%d" % ((seed * 1000003 + w * 7919) % (2 ** 31 - 1) + 1), "-max_len=%d" % max_len, "-len_control=50",
             "-artifact_prefix=" + adir + "/", "-print_final_stats=1", "-timeout=30", "-rss_limit_mb=3000", "-verbosity=0"]
         if os.path.exists(DICT):
             cmd.append("-dict=" + DICT)
@@ -87,7 +87,7 @@ def campaign(pid, target, caps, seconds, seed, nworkers, max_len=1200):
     shutil.rmtree(work, ignore_errors=True)
     return dict(evaluations=execs, failures=failures, nontrivial_extra=distinct,
                 extra=dict(fuzz_target="world/fuzz_%s.c" % target, fuzz_executions=execs, fuzz_nontrivial_executions=ntsum, fuzz_distinct_nontrivial_inputs=distinct,
-                           fuzz_workers=len(procs), fuzz_seconds_per_worker=seconds, fuzz_ring_capacities=list(caps), fuzz_wall_s=round(time.time() - t0, 1)))
+                           fuzz_workers=len(procs), fuzz_seconds_per_worker_cap=seconds, fuzz_runs_per_worker=runs, fuzz_ring_capacities=list(caps), fuzz_wall_s=round(time.time() - t0, 1)))
 
 
 def replay_artifact(path):
